@@ -555,3 +555,267 @@ Print Assumptions c_remap_frame_lines_pinned_coincides.
 Print Assumptions c_remap_frame_lines_pinned_coincides_filtered.
 Print Assumptions C10_instances.
 Print Assumptions C10_row_hypothesis_needed.
+
+(* ========================================================================================== *)
+(* 6. files of the COMPLETE snapshot writer (F1 + F7; with the F2 parser in front: snapshot_write) *)
+(* ========================================================================================== *)
+From PG Require CacheLayout.
+
+Definition Cs (rs : list record) : cache := cache_of_struct (write_struct_snapshot rs).
+
+(* The snapshot's record step ignores a header without value.  The current step ignores every header
+   whose key is not "sourceFile", and looks at the NEXT record only to see whether it is a method with
+   the same range.  So the snapshot's run over [rs] IS the current run over [rs] with every value-less
+   header replaced by a header that the current step ignores too. *)
+Definition neutral (r : record) : record :=
+  match r with
+  | RHeader _ None => RHeader [] None
+  | _ => r
+  end.
+
+Lemma next_same_range_neutral lm next :
+  next_same_range lm (match option_map neutral next with Some n => [n] | None => [] end)
+  = next_same_range lm (match next with Some n => [n] | None => [] end).
+Proof. destruct lm as [l|]; destruct next as [[k [v|]|o b|t o b|t o b a c lm']|]; reflexivity. Qed.
+
+Lemma wstep_pinned_neutral st r next : wstep_pinned st r next = wstep st (neutral r) (option_map neutral next).
+Proof.
+  destruct r as [k [v|]|o b|t o b|t o b a c lm]; cbn [wstep_pinned neutral]; try reflexivity.
+  unfold wstep. rewrite next_same_range_neutral. reflexivity.
+Qed.
+
+Lemma wrun_with_pinned_neutral : forall rs st, wrun_with wstep_pinned st rs = wrun st (map neutral rs).
+Proof.
+  induction rs as [|r rest IH]; intros st; cbn [wrun_with wrun map]; [reflexivity|].
+  rewrite wstep_pinned_neutral. replace (hd_error (map neutral rest)) with (option_map neutral (hd_error rest))
+    by (destruct rest; reflexivity).
+  apply IH.
+Qed.
+
+(* the snapshot writer is the F1-only pinned writer (resp. the current writer, for F7 alone) on the
+   neutralised records *)
+Theorem write_struct_snapshot_neutral : forall rs, write_struct_snapshot rs = write_struct_pinned (map neutral rs).
+Proof.
+  intros rs. unfold write_struct_snapshot, write_struct_pinned, write_struct_with.
+  rewrite wrun_with_pinned_neutral, wrun_with_current. reflexivity.
+Qed.
+Print Assumptions write_struct_snapshot_neutral.
+
+Theorem write_struct_pinned7_neutral : forall rs, write_struct_pinned7 rs = write_struct (map neutral rs).
+Proof.
+  intros rs. unfold write_struct_pinned7, write_struct_with, write_struct.
+  rewrite wrun_with_pinned_neutral. reflexivity.
+Qed.
+
+Lemma rec_ok_neutral r : rec_ok (neutral r) = rec_ok r.
+Proof.
+  destruct r as [k [v|]|o b|t o b|t o b a c lm]; try reflexivity.
+  cbn [neutral rec_ok]. destruct (str_eqb k source_file); destruct (str_eqb [] source_file); reflexivity.
+Qed.
+
+Lemma dom32_neutral rs : dom32 (map neutral rs) = dom32 rs.
+Proof.
+  unfold dom32. induction rs as [|r rest IH]; [reflexivity|].
+  cbn [map forallb]. rewrite rec_ok_neutral, IH. reflexivity.
+Qed.
+
+(* item 5: without value-less headers the snapshot writer is the F1-only pinned writer *)
+Lemma map_neutral_id rs : (forall k, ~ In (RHeader k None) rs) -> map neutral rs = rs.
+Proof.
+  induction rs as [|r rest IH]; intros H; [reflexivity|]. cbn [map]. f_equal.
+  - destruct r as [k [v|]|o b|t o b|t o b a c lm]; try reflexivity.
+    exfalso. apply (H k). left. reflexivity.
+  - apply IH. intros k Hk. apply (H k). right. exact Hk.
+Qed.
+
+Theorem write_struct_snapshot_coincides : forall rs,
+  (forall k, ~ In (RHeader k None) rs) -> write_struct_snapshot rs = write_struct_pinned rs.
+Proof. intros rs H. rewrite write_struct_snapshot_neutral, (map_neutral_id rs H). reflexivity. Qed.
+Print Assumptions write_struct_snapshot_coincides.
+
+(* the invariant also carries over directly, for any record step that preserves it *)
+Lemma wrun_with_inv (step : wstate -> record -> option record -> wstate) :
+  (forall st r next, rec_ok r = true -> wstate_inv st -> wstate_inv (step st r next)) ->
+  forall rs st, forallb rec_ok rs = true -> wstate_inv st -> wstate_inv (wrun_with step st rs).
+Proof.
+  intros Hstep. induction rs as [|r rest IH]; intros st H Hst; cbn [wrun_with]; [exact Hst|].
+  cbn [forallb] in H. apply andb_true_iff in H. destruct H as [Hr Hrest].
+  apply IH; [exact Hrest|]. apply Hstep; assumption.
+Qed.
+
+Lemma wstep_pinned_inv st r next : rec_ok r = true -> wstate_inv st -> wstate_inv (wstep_pinned st r next).
+Proof.
+  intros Hr Hst. destruct r as [k [v|]|o b|t o b|t o b a c lm]; cbn [wstep_pinned];
+    try (apply wstep_inv; assumption). exact Hst.
+Qed.
+
+(* item 1 *)
+Theorem snapshot_members_inv : forall rs, dom32 rs = true ->
+  Forall member_inv (cs_members (write_struct_snapshot rs)).
+Proof.
+  intros rs Hd. rewrite write_struct_snapshot_neutral, (proj1 (pinned_writer_sections _)).
+  apply written_members_inv. rewrite dom32_neutral. exact Hd.
+Qed.
+Print Assumptions snapshot_members_inv.
+
+Theorem snapshot_rows_safe : forall rs line, dom32 rs = true -> Forall (row_safe line) (k_members (Cs rs)).
+Proof.
+  intros rs line Hd. unfold Cs, cache_of_struct. cbn [k_members].
+  apply Forall_forall. intros r Hr. apply in_map_iff in Hr. destruct Hr as (m & <- & Hm).
+  apply member_inv_row_safe. exact (proj1 (Forall_forall _ _) (snapshot_members_inv rs Hd) m Hm).
+Qed.
+
+(* item 2 *)
+Theorem C10_snapshot_files_same_answers : forall rs cls m line file, dom32 rs = true ->
+  c_remap_frame_lines_pinned (Cs rs) cls m line file = Ok (c_remap_frame_lines (Cs rs) cls m line file).
+Proof.
+  intros rs cls m line file Hd. apply c_remap_frame_lines_pinned_coincides. apply snapshot_rows_safe. exact Hd.
+Qed.
+Print Assumptions C10_snapshot_files_same_answers.
+
+(* item 3 *)
+Theorem C10_snapshot_files_parse : forall rs, struct_wf (write_struct_snapshot rs) = true ->
+  parse (ser (write_struct_snapshot rs)) = POk (Cs rs).
+Proof. intros rs H. unfold Cs. apply parse_ser. exact H. Qed.
+Print Assumptions C10_snapshot_files_parse.
+
+(* the hypothesis from the current writer: on the neutralised records its structure is well formed;
+   that holds in the domain when the four section sizes fit 32 bits (CacheLayout.cache_struct_wf) *)
+Theorem struct_wf_snapshot : forall rs,
+  struct_wf (write_struct (map neutral rs)) = true -> struct_wf (write_struct_snapshot rs) = true.
+Proof. intros rs H. rewrite write_struct_snapshot_neutral. apply struct_wf_pinned. exact H. Qed.
+Print Assumptions struct_wf_snapshot.
+
+Theorem struct_wf_snapshot_dom : forall rs, dom32 rs = true -> sizes_ok (map neutral rs) = true ->
+  struct_wf (write_struct_snapshot rs) = true.
+Proof.
+  intros rs Hd Hs. apply struct_wf_snapshot. apply CacheLayout.cache_struct_wf; [|exact Hs].
+  rewrite dom32_neutral. exact Hd.
+Qed.
+Print Assumptions struct_wf_snapshot_dom.
+
+(* item 4: from the bytes of a mapping, through the snapshot's parser *)
+Theorem C10_snapshot_bytes_same_answers : forall b cls m line file, dom32 (recs_pinned b) = true ->
+  c_remap_frame_lines_pinned (Cs (recs_pinned b)) cls m line file
+  = Ok (c_remap_frame_lines (Cs (recs_pinned b)) cls m line file).
+Proof. intros b cls m line file H. apply C10_snapshot_files_same_answers. exact H. Qed.
+Print Assumptions C10_snapshot_bytes_same_answers.
+
+Theorem C10_snapshot_bytes_parse : forall b, struct_wf (write_struct_snapshot (recs_pinned b)) = true ->
+  parse (snapshot_write b) = POk (Cs (recs_pinned b)).
+Proof. intros b H. unfold snapshot_write. apply C10_snapshot_files_parse. exact H. Qed.
+Print Assumptions C10_snapshot_bytes_parse.
+
+(* ---- item 6: non-vacuity -------------------------------------------------------------------- *)
+
+(* Pinned.map7, the F7 witness (a `# sourceFile` reset before g): the snapshot keeps Foo.kt for g *)
+Example C10_snapshot_map7_ex :
+  dom32 (recs_pinned map7) = true /\ sizes_ok (map neutral (recs_pinned map7)) = true /\
+  struct_wf (write_struct_snapshot (recs_pinned map7)) = true /\
+  In (RHeader source_file None) (recs_pinned map7) /\
+  parse (snapshot_write map7) = POk (Cs (recs_pinned map7)) /\
+  c_remap_frame_lines (Cs (recs_pinned map7)) (s2b "a") (s2b "m") 2 (Some (s2b "SF.java"))
+    = [(s2b "A", s2b "g", Some (s2b "Foo.kt"), 20)] /\
+  c_remap_frame_lines_pinned (Cs (recs_pinned map7)) (s2b "a") (s2b "m") 2 (Some (s2b "SF.java"))
+    = Ok (c_remap_frame_lines (Cs (recs_pinned map7)) (s2b "a") (s2b "m") 2 (Some (s2b "SF.java"))) /\
+  (* the current release writes other bytes, and answers with the frame's file *)
+  snapshot_write map7 <> write_bytes map7 /\
+  c_remap_frame_lines (C (recs map7)) (s2b "a") (s2b "m") 2 (Some (s2b "SF.java"))
+    = [(s2b "A", s2b "g", Some (s2b "SF.java"), 20)].
+Proof.
+  split; [vmr|]. split; [vmr|]. split; [vmr|]. split; [vm_compute; tauto|]. split; [vmr|].
+  split; [vmr|]. split; [vmr|]. split; [vmd|vmr].
+Qed.
+
+(* F1 + F7 together with line arithmetic: an inline pair (class a: 3 members, 2 by-params entries),
+   a `# sourceFile` reset, a range mapping after it, a second class *)
+Definition map17 : list N :=
+  ln "A -> a:" ++
+  ln "# {""id"":""sourceFile"",""fileName"":""Foo.kt""}" ++
+  ln "    1:3:void f1():10:12 -> m" ++
+  ln "    1:3:void f2():20 -> m" ++
+  ln "# sourceFile" ++
+  ln "    5:9:void h():100:104 -> m" ++
+  ln "B -> b:" ++
+  ln "    2:4:void k():7:9 -> p".
+
+Example C10_snapshot_map17_ex :
+  dom32 (recs_pinned map17) = true /\ struct_wf (write_struct_snapshot (recs_pinned map17)) = true /\
+  map c_poff (cs_classes (write_struct_snapshot (recs_pinned map17))) = [0; 3] /\
+  map c_poff (cs_classes (write_struct (recs map17))) = [0; 2] /\
+  parse (snapshot_write map17) = POk (Cs (recs_pinned map17)) /\
+  c_remap_frame_lines (Cs (recs_pinned map17)) (s2b "a") (s2b "m") 2 None
+    = [(s2b "A", s2b "f1", Some (s2b "Foo.kt"), 11); (s2b "A", s2b "f2", Some (s2b "Foo.kt"), 20)] /\
+  c_remap_frame_lines_pinned (Cs (recs_pinned map17)) (s2b "a") (s2b "m") 2 None
+    = Ok (c_remap_frame_lines (Cs (recs_pinned map17)) (s2b "a") (s2b "m") 2 None) /\
+  c_remap_frame_lines (Cs (recs_pinned map17)) (s2b "a") (s2b "m") 7 (Some (s2b "SF.java"))
+    = [(s2b "A", s2b "h", Some (s2b "Foo.kt"), 102)] /\
+  c_remap_frame_lines_pinned (Cs (recs_pinned map17)) (s2b "a") (s2b "m") 7 (Some (s2b "SF.java"))
+    = Ok [(s2b "A", s2b "h", Some (s2b "Foo.kt"), 102)] /\
+  c_remap_frame_lines_pinned (Cs (recs_pinned map17)) (s2b "b") (s2b "p") 3 None = Ok [(s2b "B", s2b "k", None, 8)] /\
+  snapshot_write map17 <> write_bytes map17.
+Proof. repeat (split; [vmr|]). vmd. Qed.
+
+(* F2: an unterminated sourceFile header; the snapshot's parser swallows the next two lines into the
+   file name, so h becomes a member of class a (the current parser sees f in a, and h in b).
+   Also Pinned.W2 (no members: only the hypotheses and the bytes) *)
+Definition map12 : list N :=
+  ln "A -> a:" ++
+  ln "# {""id"":""sourceFile"",""fileName"":""abc" ++
+  ln "    1:3:void f():10:12 -> m" ++
+  ln "B -> b:""}" ++
+  ln "    5:9:void h():100:104 -> m".
+Definition v12 : list N := s2b "abc" ++ [10] ++ s2b "    1:3:void f():10:12 -> m" ++ [10] ++ s2b "B -> b:".
+
+Example C10_snapshot_map12_ex :
+  length (recs_pinned map12) = 3%nat /\ length (recs map12) = 4%nat /\
+  dom32 (recs_pinned map12) = true /\ struct_wf (write_struct_snapshot (recs_pinned map12)) = true /\
+  parse (snapshot_write map12) = POk (Cs (recs_pinned map12)) /\
+  c_remap_frame_lines (Cs (recs_pinned map12)) (s2b "a") (s2b "m") 7 None = [(s2b "A", s2b "h", Some v12, 102)] /\
+  c_remap_frame_lines_pinned (Cs (recs_pinned map12)) (s2b "a") (s2b "m") 7 None
+    = Ok [(s2b "A", s2b "h", Some v12, 102)] /\
+  c_remap_frame_lines (C (recs map12)) (s2b "a") (s2b "m") 7 None = [] /\
+  snapshot_write map12 <> write_bytes map12 /\
+  dom32 (recs_pinned W2) = true /\ struct_wf (write_struct_snapshot (recs_pinned W2)) = true /\
+  parse (snapshot_write W2) = POk (Cs (recs_pinned W2)) /\ snapshot_write W2 <> write_bytes W2.
+Proof.
+  repeat (split; [vmr|]). split; [vmd|]. repeat (split; [vmr|]). vmd.
+Qed.
+
+(* the theorems instantiated on the three inputs *)
+Example C10_snapshot_instances :
+  (forall cls m line file,
+     c_remap_frame_lines_pinned (Cs (recs_pinned map7)) cls m line file
+     = Ok (c_remap_frame_lines (Cs (recs_pinned map7)) cls m line file)) /\
+  (forall cls m line file,
+     c_remap_frame_lines_pinned (Cs (recs_pinned map17)) cls m line file
+     = Ok (c_remap_frame_lines (Cs (recs_pinned map17)) cls m line file)) /\
+  (forall cls m line file,
+     c_remap_frame_lines_pinned (Cs (recs_pinned map12)) cls m line file
+     = Ok (c_remap_frame_lines (Cs (recs_pinned map12)) cls m line file)) /\
+  parse (snapshot_write map17) = POk (Cs (recs_pinned map17)) /\
+  struct_wf (write_struct_snapshot (recs_pinned map17)) = true.
+Proof.
+  split; [intros; apply C10_snapshot_bytes_same_answers; vmr|].
+  split; [intros; apply C10_snapshot_bytes_same_answers; vmr|].
+  split; [intros; apply C10_snapshot_bytes_same_answers; vmr|].
+  split; [apply C10_snapshot_bytes_parse; vmr|].
+  apply struct_wf_snapshot_dom; vmr.
+Qed.
+
+(* coincidence (item 5) on an input without value-less header, and its failure on map7 *)
+Example C10_snapshot_coincides_ex :
+  (forall k, ~ In (RHeader k None) rs10) /\ write_struct_snapshot rs10 = write_struct_pinned rs10 /\
+  write_struct_snapshot (recs map7) <> write_struct_pinned (recs map7).
+Proof.
+  split; [|split; [vmr|vmd]].
+  intros k H. vm_compute in H. repeat (destruct H as [H|H]; [discriminate H|]). exact H.
+Qed.
+
+Check snapshot_members_inv.
+Check C10_snapshot_files_same_answers.
+Check C10_snapshot_files_parse.
+Check C10_snapshot_bytes_same_answers.
+Check C10_snapshot_bytes_parse.
+Check write_struct_snapshot_coincides.
+Print Assumptions C10_snapshot_instances.
